@@ -23,8 +23,18 @@ def registry_choice(rng, datetime_p=0.0):
 
 
 def gen_inputs(rng, styled_p=0.5, out_p=0.0, max_models=2):
-    if rng.random() < 0.2:
+    r = rng.random()
+    if r < 0.2:
         return [("Root", gen.gen_shared_samples(rng))]
+    if r < 0.26:
+        return [("Root", [gen.gen_recursive_tree(rng)])]
+    if r < 0.34:
+        return [("Root", [gen.gen_two_pass_merge(rng)])]
+    if r < 0.39:
+        return [("Root", [gen.gen_name_clash(rng)])]
+    if r < 0.43:
+        name, sample = gen.gen_rooted_cycle(rng)
+        return [(name, [sample])]
     n = rng.choice([1] * 3 + [2] * (max_models > 1))
     kp = gen.key_pool(rng, styled_p, out_p)
     out = []
@@ -43,13 +53,15 @@ def gen_job(rng, fw=None, layout=None):
             "convertUnicode": rng.random() < .7, "meta": rng.random() < .5, "preamble": rng.choice([None, None, "# x"])}
 
 
-def is_tree(reg):
+def is_tree(reg, root_backrefs=False):
     """each non-root model is referenced from exactly one class (possibly through several fields), roots only from outside"""
     for m in reg.models:
         with_parent = [p for p in m.pointers if p.parent is not None]
         rootp = [p for p in m.pointers if p.parent is None]
-        if rootp and with_parent:
+        if rootp and with_parent and not root_backrefs:
             return False
+        if rootp:
+            continue        # root_backrefs: a root may also be referred to from inside (C03 speaks of non-root models)
         if not rootp and len({p.parent.index for p in with_parent}) != 1:
             return False
         if not rootp and not with_parent:
